@@ -53,13 +53,22 @@ TAlign ==
 TSilent ==
   /\ (StepR \/ StepAlign \/ StepBlock \/ StepBuild \/ StepIncl \/ StepHdr \/ RFinish)
   /\ UNCHANGED <<l, tcase>>
+\* Calls that transfer nothing may or may not be made by a correct implementation: a read_exact of zero bytes
+\* (recorded ones are filtered out of the trace) and an alignment request where no padding is due.  The machine
+\* takes them without an event, so that leaving such a call out (or adding one) is never mistaken for a fault.
+TZeroFetch ==
+  /\ RRunning /\ got = <<>> /\ Top.f # "align" /\ Want(Top)[1] = 0
+  /\ FetchCall /\ UNCHANGED <<l, tcase>>
+TAlignSilent ==
+  /\ RRunning /\ got = <<>> /\ Top.f = "align" /\ Top.n > 0 /\ PadTo(rpos, Top.n) = 0
+  /\ FetchCall /\ UNCHANGED <<l, tcase>>
 \* the call returned
 TRet ==
   /\ HasEv("rret") /\ rstatus = "ok"
   /\ Ev.st = "ok" /\ Ev.val = vals /\ vals = <<tcase.v>> /\ Ev.rpos = rpos /\ rpos = Len(input)
   /\ l' = l + 1 /\ UNCHANGED <<readVars, tcase>>
 
-TNext == (TStart \/ TRead \/ TAlign \/ TSilent \/ TRet) /\ UNCHANGED serVars
+TNext == (TStart \/ TRead \/ TAlign \/ TSilent \/ TZeroFetch \/ TAlignSilent \/ TRet) /\ UNCHANGED serVars
 Furthest == TLCSet(42, IF l > TLCGet(42) THEN l ELSE TLCGet(42))
 TInBounds == rpos <= Len(input)
 
